@@ -1,6 +1,230 @@
 /-
-C05 — Internal queue limits are never exceeded. (placeholder while the model is being tied)
+C05 — Internal queue limits are never exceeded (component level: `IndepQueueManager` /
+`LimitedTaskQueue`).
+
+"Each task name belongs to exactly one internal queue (the last queue that lists it, else the
+default queue), and a queue never releases a task while the number of its [active] members is at
+its limit. Queued tasks are released in the order they were queued, skipping held ones; only
+manual triggering may exceed a limit."
+
+Statements are for **all** configurations (any number of queues, overlapping member lists, nested
+families, any limits), all task tables and all operation histories of any length
+(push / push-if-limited / release with an arbitrary counter / remove / hold / unhold / adopt).
+`Queue.Spec.judge` is the property as an executable predicate over observations; it is proved to
+accept every run of the model (refinement). Helper lemmas: `CylcModel/QueueLemmas.lean`.
+
+The model is parametrised by what `release` does with held tasks it skipped (`HeldPolicy`); the
+policy of the code under test is read off the live code into `Generated/QueueConsts.lean`
+(`heldRotates`, `codePolicy`).
+
+Scheduler-level part of C05 (who counts what as active, manual trigger) is lifted through `Sched`.
 -/
-import CylcModel.Queue
+import CylcModel.QueueLemmas
 namespace CylcModel.C05
+open CylcModel.Queue
+
+deriving instance DecidableEq for Except
+
+/-! ### membership -/
+
+/-- **membership_partition.** For every configuration in which "default" is iterated first (parsec
+always yields it first), with distinct queue names, and every family tree in which task names are
+not family names: `IndepQueueManager.__init__` keeps the queues of the configuration in order, and
+every task name is a member of exactly one queue — the last non-default queue that lists it
+(directly or through a family), else "default". -/
+theorem membership_partition (cfg : List QCfg) (all : List Name) (desc : Desc) (qs : List LQ)
+    (wf : WfCfg cfg all desc) (hmk : mk cfg all desc = some qs) :
+    qs.map (·.name) = cfg.map (·.name) ∧ qs.map (·.limit) = cfg.map (·.limit) ∧
+    ∀ n ∈ all, ∃ q ∈ qs, q.name = Spec.expectedQueue cfg all desc n ∧ n ∈ q.members ∧
+      ∀ q' ∈ qs, n ∈ q'.members → q' = q := by
+  rcases mk_spec cfg all desc qs wf hmk with ⟨shape, _, hmem⟩
+  have qnames : qs.map (·.name) = cfg.map (·.name) := by
+    have := congrArg (List.map (fun t : Name × Nat × List Nat => t.1)) shape
+    simpa [List.map_map, Function.comp_def] using this
+  have qlimits : qs.map (·.limit) = cfg.map (·.limit) := by
+    have := congrArg (List.map (fun t : Name × Nat × List Nat => t.2.1)) shape
+    simpa [List.map_map, Function.comp_def] using this
+  refine ⟨qnames, qlimits, ?_⟩
+  intro n hn
+  have hin : Spec.expectedQueue cfg all desc n ∈ qs.map (·.name) := by
+    rw [qnames]; exact expectedQueue_mem cfg all desc n wf.head
+  rcases List.mem_map.1 hin with ⟨q, hq, hqn⟩
+  refine ⟨q, hq, hqn, (hmem q hq n).2 ⟨hn, hqn⟩, ?_⟩
+  intro q' hq' hn'
+  have := (hmem q' hq' n).1 hn'
+  exact eq_of_name_eq (by rw [qnames]; exact wf.names) hq' hq (this.2.trans hqn.symm)
+
+/-- no queue has a member that is not a task name -/
+theorem members_are_tasks (cfg : List QCfg) (all : List Name) (desc : Desc) (qs : List LQ)
+    (wf : WfCfg cfg all desc) (hmk : mk cfg all desc = some qs) :
+    ∀ q ∈ qs, ∀ x ∈ q.members, x ∈ all := by
+  rcases mk_spec cfg all desc qs wf hmk with ⟨_, _, hmem⟩
+  intro q hq x hx
+  exact ((hmem q hq x).1 hx).1
+
+/-- The partition statement without "default first". -/
+def membership_partition_any_order : Prop :=
+  ∀ (cfg : List QCfg) (all : List Name) (desc : Desc) (qs : List LQ),
+    (cfg.map (·.name)).Nodup → (∀ n ∈ all, isFam desc n = false) → mk cfg all desc = some qs →
+    ∀ n ∈ all, ∀ q ∈ qs, n ∈ q.members → q.name = Spec.expectedQueue cfg all desc n
+
+/-- `_make_indep` relies on "default" being iterated first: written after another queue (in a plain
+dict; parsec never does this), a task listed in that queue stays in "default" as well. -/
+theorem default_not_first_counterexample (h : qDefault = "default") : ¬ membership_partition_any_order := by
+  intro hall
+  have := hall [⟨"q", 1, ["a"]⟩, ⟨"default", 0, []⟩] ["a"] []
+    [⟨"q", 1, ["a"], []⟩, ⟨"default", 0, ["a"], []⟩]
+    (by decide) (by decide) (by rw [mk, h]; decide) "a" (by simp) ⟨"default", 0, ["a"], []⟩ (by simp) (by simp)
+  revert this
+  rw [Spec.expectedQueue, h]
+  decide
+
+/-! ### one `release` call of one queue, any state -/
+
+/-- **release_limit.** A limited queue releases nothing when its active members are at (or above)
+the limit, and never releases past the limit: `active + released ≤ max(limit, active)`. Any deque,
+any held set, any counter, either policy. -/
+theorem release_limit (pol : HeldPolicy) (isHeld : Nat → Bool) (nameOf : Nat → Name) (q : LQ) (a : Active)
+    (hL : q.limit ≠ 0) :
+    (q.limit ≤ nActive a q.members → (releaseQ pol isHeld nameOf q a).2.1 = []) ∧
+    nActive a q.members + (releaseQ pol isHeld nameOf q a).2.1.length ≤ max q.limit (nActive a q.members) := by
+  have := releaseLoop_limit q.limit hL isHeld nameOf q.deque (nActive a q.members) a
+  refine ⟨?_, this⟩
+  intro hge
+  have hlen : (releaseQ pol isHeld nameOf q a).2.1.length = 0 := by
+    simp only [releaseQ]
+    omega
+  exact List.eq_nil_of_length_eq_zero hlen
+
+/-- **release_order.** What one call releases is a prefix of the non-held tasks of the deque in
+deque order (head = oldest); held tasks are never released; nothing is invented. -/
+theorem release_order (pol : HeldPolicy) (isHeld : Nat → Bool) (nameOf : Nat → Name) (q : LQ) (a : Active) :
+    Spec.isPrefix (releaseQ pol isHeld nameOf q a).2.1 (q.deque.filter fun t => !isHeld t) = true ∧
+    (∀ t ∈ (releaseQ pol isHeld nameOf q a).2.1, isHeld t = false ∧ t ∈ q.deque) := by
+  rcases releaseLoop_split q.limit isHeld nameOf q.deque (nActive a q.members) a with ⟨P, S, h1, h2, _, _⟩
+  simp only [releaseQ]
+  rw [h2, h1, List.filter_append]
+  refine ⟨isPrefix_append _ _, ?_⟩
+  intro t ht
+  have := List.mem_filter.1 ht
+  exact ⟨by simpa using this.2, List.mem_append_left _ this.1⟩
+
+/-- a queue without limit releases every non-held task -/
+theorem release_unlimited (pol : HeldPolicy) (isHeld : Nat → Bool) (nameOf : Nat → Name) (q : LQ) (a : Active)
+    (hL : q.limit = 0) :
+    (releaseQ pol isHeld nameOf q a).2.1 = q.deque.filter fun t => !isHeld t := by
+  have : ∀ (dq : List Nat) (n : Nat) (a : Active),
+      (releaseLoop 0 isHeld nameOf dq n a).released = dq.filter fun t => !isHeld t := by
+    intro dq
+    induction dq with
+    | nil => intro n a; rfl
+    | cons t ts ih =>
+      intro n a
+      simp only [releaseLoop, beq_self_eq_true, Bool.true_or, if_true]
+      by_cases hh : isHeld t = true
+      · simp [hh, ih]
+      · simp [hh, ih]
+  simp only [releaseQ, hL]
+  exact this _ _ _
+
+/-! ### whole histories: the judge accepts the model (refinement) -/
+
+/-- **limit_and_order_keep (full statement, policy `keep`).** For every well-formed configuration,
+every task table and every well-formed history of any length, the property judge accepts the
+model that leaves skipped held tasks in place: membership is the partition above; every release
+stays within every queue's limit given the counter handed in; released tasks are exactly a prefix
+of the queue's non-held tasks in the order they were queued, across holds, removals, manual
+queueing and adoptions; nothing is released twice or after removal. -/
+theorem limit_and_order_keep (i : Spec.Input) (qs : List LQ)
+    (wf : WfCfg i.cfg i.allTasks i.desc) (hmk : mk i.cfg i.allTasks i.desc = some qs)
+    (hops : Spec.wfOps i.allTasks i.names ([], []) i.ops = true) :
+    Spec.judge i (obsQueues qs) (run .keep i.names { queues := qs, held := [] } i.ops) = .ok () :=
+  judge_accepts .keep i qs wf hmk hops (Or.inl rfl)
+
+/-- **limit_and_order_partial (either policy, no holds).** Same statement for the model with the
+policy of the code as it is (`rotate`: skipped held tasks are re-queued at the newest end),
+restricted to histories in which no task is ever held. Missing for the full statement: order
+after a queued task was held during a release — see `order_rotate_counterexample`. -/
+theorem limit_and_order_partial (pol : HeldPolicy) (i : Spec.Input) (qs : List LQ)
+    (wf : WfCfg i.cfg i.allTasks i.desc) (hmk : mk i.cfg i.allTasks i.desc = some qs)
+    (hops : Spec.wfOps i.allTasks i.names ([], []) i.ops = true) (hnohold : noHold i.ops = true) :
+    Spec.judge i (obsQueues qs) (run pol i.names { queues := qs, held := [] } i.ops) = .ok () :=
+  judge_accepts pol i qs wf hmk hops (Or.inr hnohold)
+
+/-- The full statement for a policy. -/
+def limit_and_order_full (pol : HeldPolicy) : Prop :=
+  ∀ (i : Spec.Input) (qs : List LQ), WfCfg i.cfg i.allTasks i.desc → mk i.cfg i.allTasks i.desc = some qs →
+    Spec.wfOps i.allTasks i.names ([], []) i.ops = true →
+    Spec.judge i (obsQueues qs) (run pol i.names { queues := qs, held := [] } i.ops) = .ok ()
+
+theorem limit_and_order_full_keep : limit_and_order_full .keep :=
+  fun i qs wf hmk hops => limit_and_order_keep i qs wf hmk hops
+
+/-- the witness of the recorded finding `held-requeue-order`: limit 1; a, b, c queued; a held
+during the first release; after "unhold a" the next release gives c instead of a -/
+def witness : Spec.Input :=
+  { cfg := [⟨"default", 1, []⟩], allTasks := ["a", "b", "c"], desc := [("root", ["a", "b", "c"])],
+    names := ["a", "b", "c"],
+    ops := [.push 0, .push 1, .push 2, .hold 0, .release [], .unhold 0, .release [], .release []] }
+
+/-- **order_rotate_counterexample.** With the `rotate` policy (the unpatched code) the full
+statement is false: the judge rejects the run on `witness` (queued order violated at the second
+release). -/
+theorem order_rotate_counterexample (h : qDefault = "default") : ¬ limit_and_order_full .rotate := by
+  intro hall
+  have := hall witness [⟨"default", 1, ["a", "b", "c"], []⟩]
+    ⟨by rw [h]; decide, by decide, by decide⟩ (by rw [mk, h]; decide) (by decide)
+  revert this
+  unfold Spec.judge Spec.checkMembership Spec.expectedQueue
+  rw [h]
+  decide
+
+/-- **code_as_probed.** The statement about the code under test, whichever policy `translate()`
+found in it: full when it keeps held tasks in place (`heldRotates = false`, i.e. after
+findings/C05-fix-1.diff), restricted to hold-free histories otherwise. -/
+theorem code_as_probed (i : Spec.Input) (qs : List LQ)
+    (wf : WfCfg i.cfg i.allTasks i.desc) (hmk : mk i.cfg i.allTasks i.desc = some qs)
+    (hops : Spec.wfOps i.allTasks i.names ([], []) i.ops = true) (h : heldRotates = false ∨ noHold i.ops = true) :
+    Spec.judge i (obsQueues qs) (run codePolicy i.names { queues := qs, held := [] } i.ops) = .ok () := by
+  apply judge_accepts codePolicy i qs wf hmk hops
+  rcases h with h | h
+  · left; simp [codePolicy, h]
+  · exact Or.inr h
+
+/-! ### non-vacuity -/
+
+/-- a well-formed configuration with overlapping memberships through a nested family -/
+def exCfg : List QCfg := [⟨"default", 2, []⟩, ⟨"big", 1, ["FAM", "x"]⟩, ⟨"sml", 2, ["b", "nosuch"]⟩]
+def exAll : List Name := ["a", "b", "x", "y"]
+def exDesc : Desc := [("root", ["FAM", "SUB", "a", "b", "x", "y"]), ("FAM", ["SUB", "a", "b"]), ("SUB", ["b"])]
+
+example (h : qDefault = "default") : WfCfg exCfg exAll exDesc :=
+  ⟨by rw [h]; decide, by decide, by decide⟩
+
+/-- `a` (via FAM) and `x` end in `big`, `b` (listed by FAM and by `sml`) in the later `sml`, `y` in default -/
+example (h : qDefault = "default") : mk exCfg exAll exDesc =
+    some [⟨"default", 2, ["y"], []⟩, ⟨"big", 1, ["a", "x"], []⟩, ⟨"sml", 2, ["b"], []⟩] := by
+  rw [mk, h]; decide
+
+/-- a well-formed history with a hold, a manual queueing, a removal and an adoption -/
+example : Spec.wfOps exAll ["a", "b", "x", "orphan"] ([], [])
+    [.push 0, .push 1, .hold 0, .release [("a", 1)], .pushIfLimited 2 [("x", 1)],
+     .remove 1, .push 1, .adopt ["orphan"], .push 3, .unhold 0, .release []] = true := by decide
+
+example : noHold [.push 0, .push 1, .release [("a", 1)], .unhold 0, .release []] = true := by decide
+
+/-- `release_limit` / `release_order` on a state where both the limit and a held task bite:
+limit 2, one active, deque 5(held) 6 7 → releases 6 only -/
+example : (releaseQ .rotate (fun t => t == 5) (fun _ => "a") ⟨"q", 2, ["a"], [5, 6, 7]⟩ [("a", 1)]).2.1 = [6] := by
+  decide
+
+/-- the judge is not trivially accepting: it rejects an over-limit release -/
+example (h : qDefault = "default") :
+    Spec.judge { witness with ops := [.push 0, .push 1, .release []] }
+      [("default", ["a", "b", "c"])] [.unit, .unit, .ids [0, 1]]
+      = .error (.overLimit 2 "default" 0 2 1) := by
+  unfold Spec.judge Spec.checkMembership Spec.expectedQueue
+  rw [h]
+  decide
+
 end CylcModel.C05
